@@ -7,6 +7,7 @@ import (
 	"unsafe"
 
 	"go.uber.org/dig"
+	"verif/harness/pool"
 )
 
 var kindByType = map[string]string{
@@ -23,6 +24,7 @@ var kindByType = map[string]string{
 	"dig.PanicError":             "panicErr",
 	"*exec.UserErr":              "user",
 	"*exec.NilErr":               "user",
+	"pool.VErr":                  "user",
 }
 
 func kindOf(err error) string {
@@ -59,6 +61,8 @@ func (r *run) classify(err error) *ErrC {
 			c.Root = fmt.Sprintf("user:%d:%d", ue.Fn, ue.X)
 		} else if ne, ok := root.(*NilErr); ok && ne == nil {
 			c.Root = fmt.Sprintf("user:%d:%d", r.lastNil[0], r.lastNil[1])
+		} else if ve, ok := root.(pool.VErr); ok {
+			c.Root = fmt.Sprintf("user:%d:%d", ve.Code>>20, ve.Code&(1<<20-1))
 		} else if pe, ok := root.(dig.PanicError); ok {
 			if up, ok := asUserPanic(pe.Panic); ok {
 				c.Root = fmt.Sprintf("panic:%d:%d", up.Fn, up.X)
@@ -70,6 +74,8 @@ func (r *run) classify(err error) *ErrC {
 		c.Is = errors.Is(err, ue)
 	} else if ne, ok := innermost.(*NilErr); ok && ne == nil {
 		c.Is = errors.Is(err, error((*NilErr)(nil)))
+	} else if ve, ok := innermost.(pool.VErr); ok {
+		c.Is = errors.Is(err, ve)
 	}
 	c.Cyc = dig.IsCycleDetected(err)
 	c.Viz = dig.CanVisualizeError(err)
